@@ -531,6 +531,16 @@ func buildPlans(thorough bool) []plan {
 		}})
 	}
 
+	// 4j. a client that stops reading while a subscription with 100 KB events floods, pings while the outgoing
+	// queue is full, then resumes reading: the pong must be there (graphql-transport-ws; in graphql-ws the ping is
+	// an ignored frame, the events must all arrive)
+	for _, p := range protos {
+		sb := msg(startType(p), 1, "doc", "sub")
+		sb.Big = true
+		sc := Script{Proto: p, Labels: []Label{msg("init", 0, "none", ""), sb}, SlowPing: true, End: "client-close", Barrier: true}
+		plans = append(plans, plan{mode: "slow", slow: true, make: func(*rng.R) Script { return sc }})
+	}
+
 	// 5. keep-alive periods: the conversation waits 15 s (+ margin) per tick label, so these few run
 	// beside the worker pool from the start and are handed out last
 	for _, p := range protos {
